@@ -243,6 +243,12 @@ func (g *Gen) applyContract(fc *FuncContract, names []string, args []TV, cc *ssa
 		formals[nm] = args[i]
 	}
 	envPre := &Env{g: g, st: pre, old: pre, vars: map[string]TV{}, args: formals}
+	_, isLit := cc.Value.(*ssa.MakeClosure)
+	if isLit {
+		// a function literal called (or deferred) where it is created: the variables it captures
+		// are variables of this function, so the names in its contract resolve here
+		envPre.fn, envPre.point, envPre.seqMax = g.fn, g.cur, g.seq+1
+	}
 	k := 0
 	for _, cl := range fc.Clauses {
 		if cl.Kind != "requires" {
@@ -355,6 +361,9 @@ func (g *Gen) applyContract(fc *FuncContract, names []string, args []TV, cc *ssa
 		}
 	}
 	envPost := &Env{g: g, st: g.st, old: pre, vars: map[string]TV{}, args: formals}
+	if isLit {
+		envPost.fn, envPost.point, envPost.seqMax = g.fn, g.cur, g.seq+1
+	}
 	for i, t := range rts {
 		envPost.results = append(envPost.results, TV{res[i], t})
 		nm := ""
